@@ -74,9 +74,9 @@ def _istr(i):
     items = []
     for it in i["items"]:
         if "s" in it:
-            items.append(["s", [None, T(it["s"])]])
+            items.append(["s", [_tr(it.get("tr")), T(it["s"])]])
         else:
-            items.append(["p", [None, T(it["p"])]])
+            items.append(["p", [_tr(it.get("tr")), T(it["p"])]])
     return [_lt(i["lquote"]), items]
 
 
